@@ -223,9 +223,18 @@ def size_sweep(ctx, b):
     step = 96 if ctx.quick() else 12
     L = ["scratch " + d, "clock 1000"]
     paths = []
+    longkeys, firstkey = set(), {}
     for n, vlen in enumerate(range(3500, 3500 + 4096 + 700, step)):
         pth = os.path.join(d, "z%d.mtbl" % n)
-        L += ["w_init 9 %s none default 1024 2 -1 0" % pth, "w_add 9 6b G%dx%d" % (40000 + n, vlen + rng.randint(0, step - 1)), "w_close 9"]
+        if n % 3 == 2:
+            # keys of several hundred bytes (internal buffers grow past their initial capacity and are reset for the next key)
+            k1, k2, k3 = (shapes.hexs(bytes([0x6b]) * 300 + bytes([c])) for c in (1, 2, 3))
+            L += ["w_init 9 %s none default 1024 2 -1 0" % pth, "w_add 9 %s G%dx%d" % (k1, 40000 + n, vlen // 3), "w_add 9 %s G%dx%d" % (k2, 41000 + n, vlen // 3),
+                  "w_add 9 %s G%dx%d" % (k3, 42000 + n, vlen // 3 + rng.randint(0, step - 1)), "w_close 9"]
+            longkeys.add(pth)
+            firstkey[pth] = k1
+        else:
+            L += ["w_init 9 %s none default 1024 2 -1 0" % pth, "w_add 9 6b G%dx%d" % (40000 + n, vlen + rng.randint(0, step - 1)), "w_close 9"]
         paths.append(pth)
     # refused files: zero bytes of special sizes, and a real table cut short
     bad = []
@@ -242,6 +251,10 @@ def size_sweep(ctx, b):
         o("r_init 1 %s %d 0" % (pth, rng.randint(0, 1)))
         o("it_iter 1 r:1")
         o("it_next 1 1")
+        if pth in longkeys:
+            o("it_next 1 2")
+            o("it_seek 1 " + firstkey[pth])
+            o("it_next 1 1")
         o("it_destroy 1")
         o("r_destroy 1")
     for pth in bad:
